@@ -353,9 +353,19 @@ def ket00Tab : Tab := Tab.ofRows 2 #[PRow.Xq 0, PRow.Xq 1,
     PRow.ofArrays #[false,false] #[true,false] false false,
     PRow.ofArrays #[false,false] #[false,true] false false]
 
-theorem inverseCircuit_ok (t : STab) (h : t.canonLoops.2 = t.n) :
-    t.inverseCircuit = .ok ((invBlocks t.canonLoops.1).t, (invBlocks t.canonLoops.1).circ) := by
-  unfold inverseCircuit; rw [canonicalForm_ok t h]
+/-- the pair `inverse_circuit` returns (the input with an empty list where it raises) -/
+def invOut (t : STab) : STab × List Gate :=
+  match t.inverseCircuit with
+  | .ok p => p
+  | .error _ => (t, [])
+
+theorem inverseCircuit_ok (t : STab)
+    (h : (match t.inverseCircuit with | .ok _ => true | .error _ => false) = true) :
+    t.inverseCircuit = .ok ((invOut t).1, (invOut t).2) := by
+  unfold invOut
+  cases hx : t.inverseCircuit with
+  | error e => rw [hx] at h; cases h
+  | ok p => rfl
 
 /-- the hypotheses of the fidelity theorems are met by concrete pairs, with all three kinds of result:
     Φ⁺ against Φ⁻ (orthogonal: result 0), Φ⁺ against |00⟩ (overlap 1/√2: `some 1`), Φ⁺ against itself (`some 0`);
@@ -378,7 +388,7 @@ example : ∃ s1 circ, (STab.ofTab ket00Tab).inverseCircuit = .ok (s1, circ) ∧
     |00⟩ share a subgroup of rank 1 (generated by `ZZ`) — consequences of the theorems, not evaluations -/
 example : Orth (STab.ofTab bellPlusTab) (STab.ofTab bellMinusTab) ∧ OverlapDim (STab.ofTab bellPlusTab) (STab.ofTab ket00Tab) 1 := by
   have hs := inverseCircuit_ok (STab.ofTab bellPlusTab) (by decide +kernel)
-  have hz : (invBlocks (STab.ofTab bellPlusTab).canonLoops.1).t.isZero = true := by decide +kernel
+  have hz : (invOut (STab.ofTab bellPlusTab)).1.isZero = true := by decide +kernel
   have g1 : (STab.ofTab bellPlusTab).Good := good_of_check _ (by decide)
   have g2 : (STab.ofTab bellMinusTab).Good := good_of_check _ (by decide)
   have g3 : (STab.ofTab ket00Tab).Good := good_of_check _ (by decide)
@@ -392,8 +402,8 @@ example : (∃ cb, (STab.ofTab bellMinusTab).canonicalForm = .ok cb) ∧
     (STab.ofTab bellPlusTab).commonCount (STab.ofTab ket00Tab) = 2 :=
   ⟨⟨_, canonicalForm_ok _ (by decide)⟩, by decide +kernel, by decide +kernel⟩
 
-/-- the D42 witness of `C11.synthesis_incomplete` as a Clifford tableau (the destabilizer half is not read by
-    `inner_product` on its first argument) -/
+/-- the witness of the repaired defect D42 (`C11.d42`: −XIYXI, −IXXZZ, IIZZX, −ZIIZI, IZZZI) as a Clifford tableau
+    (the destabilizer half is not read by `inner_product` on its first argument) -/
 def d42Tab : Tab := Tab.ofRows 5 #[PRow.one, PRow.one, PRow.one, PRow.one, PRow.one,
     PRow.ofArrays #[true,false,true,true,false] #[false,false,true,false,false] true false,
     PRow.ofArrays #[false,true,true,false,false] #[false,false,false,true,true] true false,
@@ -401,13 +411,12 @@ def d42Tab : Tab := Tab.ofRows 5 #[PRow.one, PRow.one, PRow.one, PRow.one, PRow.
     PRow.ofArrays #[false,false,false,false,false] #[true,false,false,true,false] true false,
     PRow.ofArrays #[false,false,false,false,false] #[false,true,true,true,false] false false]
 
-/-- **The hypothesis `hzero` cannot be dropped** (kernel-checked; D42): on the 5-qubit witness of
-    `C11.synthesis_incomplete` the synthesis does not reach |0…0⟩ and `inner_product` reports `2^{-1/2}` (fidelity 1/2)
-    for the state with itself.  Hence `fidelity_self_statement`, and with it `fidelity_one_iff_statement` and
-    `inner_product_exponent_statement`, are false on the current code. -/
-theorem fidelity_self_statement_false : ¬ fidelity_self_statement := by
-  intro hst
-  have := hst d42Tab (some 1) (good_of_check _ (by decide +kernel)) (ok_of_check _ _ (by decide +kernel))
-  cases this
+/-- **Regression for D42** (kernel-checked): on the 5-qubit state for which `inverse_circuit` (before graphiq commit
+    74abae4) did not reach |0…0⟩ and `inner_product` reported `2^{-1/2}` (fidelity 1/2) for the state with itself, the
+    repaired synthesis reaches |0…0⟩ and the fidelity of the state with itself is 1. -/
+theorem d42_witness_now_synthesised :
+    (STab.ofTab d42Tab).Good ∧ (invOut (STab.ofTab d42Tab)).1.isZero = true ∧
+    STab.innerProduct d42Tab d42Tab = .ok (some 0) :=
+  ⟨good_of_check _ (by decide +kernel), by decide +kernel, ok_of_check _ _ (by decide +kernel)⟩
 
 end Graphiq.C05
